@@ -99,7 +99,7 @@ def ops_for(rng, p, st, tier):
             for tg in [dict(t="idxd"), dict(t="path", sep=47), dict(t="packed"), dict(t="unit"), dict(t="json"), dict(t="path", sep=233)]:
                 if quick and d < maxd and rng.random() < 0.6:
                     continue
-                ops.append(dict(op="iter", d=d, tg=tg, max=600))
+                ops.append(dict(op="iter", d=d, tg=tg, max=600, resolve=(d >= maxd and tg["t"] != "unit")))
         ops.append(dict(op="iter", d=maxd, tg=dict(t="path", sep=47), exact=True, max=600))
         ops.append(dict(op="iter", d=maxd + 1, tg=dict(t="idxd"), exact=True, max=600))
         # rooted iteration, any representation of the root
